@@ -218,3 +218,10 @@ class SymRe:
             def __getattr__(self, k):
                 return getattr(real, k)
         return C()
+
+
+def wrap_compiled(module):
+    """module-level precompiled patterns (re.compile at import time) are re-bound to their symbolic twins"""
+    for name, val in list(vars(module).items()):
+        if isinstance(val, real_re.Pattern):
+            setattr(module, name, SymRe.compile(val.pattern, val.flags & ~real_re.UNICODE))
